@@ -65,7 +65,18 @@ def gen_space(rng, dims=None, max_points=400, aligned_only=False, fine=False, gi
 def build_space(sd):
     from black_it.search_space import SearchSpace
 
+    if sd.get("int_bounds"):
+        # the way a user writes whole-number bounds: plain Python ints in nested lists (numpy infers an integer dtype from them)
+        return SearchSpace([[int(v) for v in sd["bounds"][0]], [int(v) for v in sd["bounds"][1]]], [float(v) for v in sd["precision"]], False)
     return SearchSpace(np.array(sd["bounds"], dtype=float), np.array(sd["precision"], dtype=float), False)
+
+
+def gen_int_bounds_space(rng, dims):
+    """Whole-number bounds with steps that do not divide 1 (0.3, 0.15, 0.75, 0.4): grid points are not integers."""
+    lo = [int(x) for x in rng.integers(-20, 20, size=dims)]
+    up = [l + int(x) for l, x in zip(lo, rng.integers(1, 12, size=dims))]
+    pr = [float(rng.choice([0.3, 0.15, 0.75, 0.4, 0.07])) for _ in range(dims)]
+    return {"bounds": [[float(v) for v in lo], [float(v) for v in up]], "precision": pr, "styles": ["intbounds"] * dims, "int_bounds": True}
 
 
 def space_is_nonaligned(space):
